@@ -66,6 +66,7 @@ type Task struct {
 
 	kids   map[string]int
 	selPos int
+	mark   string // site of the channel operation / select being executed
 }
 
 // Runtime is the per-run simulation state.
@@ -166,6 +167,7 @@ func Mark(site string) {
 	rt.Mu.Lock()
 	t.State = StChan
 	t.Label = site
+	t.mark = site
 	rt.Mu.Unlock()
 }
 
@@ -179,6 +181,18 @@ func (t *Task) Park(label string) {
 	t.Yields++
 	rt.Mu.Unlock()
 	<-t.wake
+	t.resume()
+}
+
+// resume restores the "inside a channel operation" description after a park
+// that happened while evaluating the operands of a marked operation.
+func (t *Task) resume() {
+	if t.mark != "" {
+		t.rt.Mu.Lock()
+		t.State = StChan
+		t.Label = t.mark
+		t.rt.Mu.Unlock()
+	}
 }
 
 // BlockOn parks the calling task as waiting on obj (not runnable) until some
@@ -190,6 +204,7 @@ func (t *Task) BlockOn(label string, obj any) {
 	t.WaitObj = obj
 	t.rt.Mu.Unlock()
 	<-t.wake
+	t.resume()
 }
 
 // MakeReady turns a waiting task into a ready one. Caller holds rt.Mu.
